@@ -6,8 +6,13 @@ spec/PlanSpace.tla is the oracle: a state machine whose states are the feasible
 T  instances inside the property's bound (<= 4 offered tasks in 1-3 task graphs,
    <= 2 workers, <= 2 strategies, horizon <= 12 slots, discretisation 1-3, running
    occupants, SCHEDULED tasks, task-by-task mode and whole-graph chains; directed
-   ones that need one convention exactly + seeded-random ones) are built as real
-   tasks / Workload / WorkerPools; the real ILPScheduler(goal=max_goodput),
+   ones that need one convention exactly + seeded-random ones; workers that list one
+   resource name under 2-3 ids - the name:id syntax of the worker profiles - with
+   quantities 1-2, alone or next to single-entry workers, capacity-bound on that name,
+   demands with the `any` id and with specific ids: PlanSpace counts a worker's capacity
+   per name as the SUM over its instances and a pinned unit against its instance; times
+   in mixed EventTime units: runtimes / discretisation in ms, deadlines in us) are built
+   as real tasks / Workload / WorkerPools; the real ILPScheduler(goal=max_goodput),
    TetriSchedGurobiScheduler and TetriSchedCPLEXScheduler `schedule()` are called;
    the (instance, answer) records go to TLC in batches (one JVM per batch):
      ILP        kind "opt": TLC searches the plan space (branch and bound by the
@@ -15,7 +20,7 @@ T  instances inside the property's bound (<= 4 offered tasks in 1-3 task graphs,
                 has more goodput than the answer.  The counterexample is a better plan.
      TetriSched kind "max": the state is the answer; C14_Maximal: no offered task can
                 be added at any allowed (worker, strategy, slot).
-   Every record is also judged under the conventions of the pinned model
+   Failing records are judged again under the conventions of the pinned model
    (conv.pairSum / unplacedTimed / occupants charged their full runtime / only
    reward tasks count): a record that fails under the statement-level conventions
    is a violation either way; the variant that makes it pass names its cause (a
@@ -71,24 +76,58 @@ JAVA_OPTS = mcgen.LIB_OPT + ["-XX:ParallelGCThreads=2", "-Xss16m"]
 # abstract instances
 
 
+MAXIDS = 3  # a worker lists one resource name under at most 3 ids ("0", "1", "2")
+
+
+def _strat(d, r, pin=None):
+    """dem[k]: units of resource name k asked for in total; pin[k][i]: the part of dem[k]
+    asked for with the specific id str(i) (the rest is asked for with the `any` id)"""
+    pin = [list(x) for x in (pin or [[] for _ in d])]
+    assert len(pin) == len(d) and all(sum(x) <= q and len(x) <= MAXIDS for x, q in zip(pin, d)), (d, pin)
+    return {"dem": list(d), "rt": r, "pin": pin}
+
+
 def T(graph, release, deadline, strats, parents=(), occ_parents=(), must=None, virtual_child=False):
+    """strats: (dem, rt) or (dem, rt, pin)"""
     return {
         "graph": graph, "release": release, "deadline": deadline,
-        "strats": [{"dem": list(d), "rt": r} for d, r in strats],
+        "strats": [_strat(*x) for x in strats],
         "parents": list(parents), "occParents": list(occ_parents), "must": must, "virtualChild": virtual_child,
     }
 
 
-def O(w, dem, rem, full=None, graph=None):
-    return {"w": w, "dem": list(dem), "rem": rem, "full": full or rem, "graph": graph}
+def O(w, dem, rem, full=None, graph=None, pin=None):
+    return {"w": w, "dem": list(dem), "pin": _strat(dem, 0, pin)["pin"], "rem": rem, "full": full or rem, "graph": graph}
 
 
-def case(policy, mode, now, caps, occ, tasks, disc=1, plan_ahead=-1, tag="gen"):
+def case(policy, mode, now, caps, occ, tasks, disc=1, plan_ahead=-1, tag="gen", units=None):
+    """caps[w][k]: an int c (the worker lists resource name k once, without id, quantity c; 0 = not
+    at all) or a list [q0, q1, ..] (the worker lists the SAME name under the ids "0", "1", ..: the
+    documented name:id syntax of the worker profiles; it owns sum(q) units).
+    units: EventTime units of the real objects, e.g. {"rt": "MS", "disc": "MS"} (default US); the
+    abstract values are always microseconds."""
     occ = [dict(o, graph=o["graph"] or f"og{i+1}") for i, o in enumerate(occ)]
-    return {
-        "policy": policy, "mode": mode, "disc": disc, "plan_ahead": plan_ahead, "tag": tag,
-        "inst": {"now": now, "caps": [list(c) for c in caps], "occ": occ, "tasks": tasks},
-    }
+    inst = {"now": now, "caps": [[list(c) if isinstance(c, (list, tuple)) else c for c in cap] for cap in caps], "occ": occ, "tasks": tasks}
+    if units:
+        inst["units"] = dict(units)
+    return {"policy": policy, "mode": mode, "disc": disc, "plan_ahead": plan_ahead, "tag": tag, "inst": inst}
+
+
+def _tot(c):
+    """units of one resource name a worker owns (all its instances together)"""
+    return sum(c) if isinstance(c, list) else c
+
+
+def _tots(caps):
+    return [[_tot(c) for c in cap] for cap in caps]
+
+
+def _multi(inst):
+    return any(isinstance(c, list) and len(c) > 1 for cap in inst["caps"] for c in cap)
+
+
+def _pinned(inst):
+    return any(any(x) for t in inst["tasks"] for s_ in t["strats"] for x in s_["pin"]) or any(any(x) for o in inst["occ"] for x in o.get("pin", []))
 
 
 def directed():
@@ -148,18 +187,112 @@ def directed():
     return out
 
 
+def directed_multi(quick=False):
+    """Workers that list ONE resource name under several ids (name:id syntax of the worker
+    profiles): the worker owns the SUM of the listed quantities.  Every instance is
+    capacity-bound on that name: the optimum / the maximal plan needs more units at one
+    instant than any single entry (the first, the last, the largest) provides."""
+    A, B, AA, AB = [1, 0], [0, 1], [2, 0], [1, 1]
+    G11, G12, G21, G111 = [[1, 1], 0], [[1, 2], 0], [[2, 1], 0], [[1, 1, 1], 0]
+    out = []
+    for pol in POLICIES:
+        lb = 1 if pol == "ilp" else 0          # first allowed start after `now`
+        gap = 1 if pol == "ilp" else 0         # closed intervals need one more instant
+        modes = ("tasks",) if pol == "tsc" else ("tasks", "graphs")
+        for mode in modes:
+            m = "" if mode == "tasks" else "_graphs"
+            # two 1-unit tasks that cannot be serialised on {0:1, 1:1}
+            out.append(case(pol, mode, 0, [G11], [], [T("g1", 0, lb + 4, [(A, 3)]), T("g2", 0, lb + 4, [(A, 3)])], tag=f"multi_two_any{m}"))
+            # one task that needs both instances
+            out.append(case(pol, mode, 0, [G12], [], [T("g1", 0, lb + 3, [(AA, 3)]), T("g2", 0, lb + 3, [(A, 2)])], tag=f"multi_2plus1_q12{m}"))
+            if quick and mode == "graphs":
+                continue
+            out.append(case(pol, mode, 0, [G11], [], [T("g1", 0, lb + 3, [(AA, 3)])], tag=f"multi_wide{m}"))
+            # three instances: three 1-unit tasks at once; 2 + 1 units at once on {0:1, 1:2} / {0:2, 1:1}
+            out.append(case(pol, mode, 2, [G111], [], [T("g1", 0, 2 + lb + 3, [(A, 2)]), T("g2", 1, 2 + lb + 3, [(A, 2)]), T("g3", 2, 2 + lb + 3, [(A, 2)])], tag=f"multi_three_any{m}"))
+            out.append(case(pol, mode, 0, [G21], [], [T("g1", 0, lb + 3, [(AA, 3)]), T("g2", 0, lb + 3, [(A, 2)])], tag=f"multi_2plus1_q21{m}"))
+        out.append(case(pol, "tasks", 0, [G111], [], [T("g1", 0, lb + 2, [([3, 0], 2)])], tag="multi_wide3"))
+        # a RUNNING occupant (just started) holds one of the two units: a 1-unit task fits next to it,
+        # a 2-unit task has to wait for it (and can then only start at the latest slot)
+        out.append(case(pol, "tasks", 0, [G11], [O(1, A, 4)], [T("g1", 0, lb + 3, [(A, 2)])], tag="multi_occ_share"))
+        out.append(case(pol, "tasks", 0, [G11], [O(1, A, 4)], [T("g1", 0, 4 + gap + 2, [(AA, 2)]), T("g2", 0, lb + 3, [(A, 3)])], tag="multi_occ_wait"))
+        out.append(case(pol, "tasks", 2, [G12], [O(1, A, 3), O(1, A, 2)], [T("g1", 0, 2 + lb + 2, [(A, 2)]), T("g2", 2, 2 + lb + 2, [(A, 2)])], tag="multi_occ2_q12"))
+        # next to a single-entry worker: three tasks at once need 2 + 1
+        out.append(case(pol, "tasks", 0, [G11, A], [], [T("g1", 0, lb + 3, [(A, 3)]), T("g2", 0, lb + 3, [(A, 3)]), T("g3", 0, lb + 3, [(A, 3)])], tag="multi_mixed_workers"))
+        out.append(case(pol, "tasks", 0, [[1, 1], [[1, 1], 0]], [O(1, AB, 5)], [T("g1", 0, lb + 3, [(AA, 2), (A, 6)]), T("g2", 0, lb + 4, [(B, 9)])], tag="multi_mixed_workers2"))
+        # only the fast strategy (both instances) meets the deadline
+        out.append(case(pol, "tasks", 0, [G11], [], [T("g1", 0, lb + 2, [(AA, 2), (A, 5)])], tag="multi_fast_wide"))
+        # both resource names multi-instance
+        out.append(case(pol, "tasks", 0, [[[1, 1], [1, 1]]], [], [T("g1", 0, lb + 3, [(AB, 3)]), T("g2", 0, lb + 3, [(AB, 3)])], tag="multi_both_names"))
+        # a previously SCHEDULED task keeps one unit: the other one is still usable at the same time
+        must = T("g1", 0, lb + 4, [(A, 4)], must={"w": 1, "s": 1, "start": lb})
+        out.append(case(pol, "tasks", 0, [G11], [], [must, T("g2", 0, lb + 3, [(A, 3)])], tag="multi_next_to_scheduled"))
+        # specific ids: one unit asked for with id "1", one with `any`: both at once
+        P1, P0 = [[0, 1], []], [[1], []]
+        out.append(case(pol, "tasks", 0, [G11], [], [T("g1", 0, lb + 3, [(A, 3, P1)]), T("g2", 0, lb + 3, [(A, 3)])], tag="multi_pin_and_any"))
+        out.append(case(pol, "tasks", 0, [G12], [], [T("g1", 0, lb + 3, [(AA, 3, [[0, 2], []])]), T("g2", 0, lb + 3, [(A, 3, P0)])], tag="multi_pin_both"))
+        out.append(case(pol, "tasks", 0, [G11, A], [], [T("g1", 0, lb + 3, [(AA, 3, P0)]), T("g2", 0, lb + 3, [(A, 3)])], tag="multi_pin_plus_any"))
+        # two tasks that both want id "0" can only run one after the other (the planners' capacity
+        # rows are per name: an answer that runs them at once is outside the space, no verdict)
+        out.append(case(pol, "tasks", 0, [G11], [], [T("g1", 0, 9, [(A, 2, P0)]), T("g2", 0, 9, [(A, 2, P0)])], tag="multi_pin_same_id"))
+    # whole graphs: a chain (parent at the first slot, child right behind it) next to a single task
+    # that has to run at the same time as the parent / as the 2-unit child
+    for pol in ("ilp", "tsg"):
+        lb = 1 if pol == "ilp" else 0
+        out.append(case(pol, "graphs", 0, [G11], [], [T("g1", 0, 9, [(A, 2)]), T("g1", -1, lb + 5, [(A, 2)], parents=[1]), T("g2", 0, lb + 2, [(A, 2)])], tag="multi_chain_and_single"))
+        out.append(case(pol, "graphs", 0, [G111], [], [T("g1", 0, 9, [(A, 2)]), T("g1", -1, lb + 5, [(A, 2)], parents=[1]), T("g2", 0, lb + 5, [(A, 5)])], tag="multi_chain_long_single"))
+    return out
+
+
+def directed_units():
+    """Times in MIXED EventTime units: runtimes (and TetriSched's discretisation) are given in
+    milliseconds, deadlines / release times / `now` in microseconds.  The abstract values
+    (and the spec's) are microseconds; a slot of TetriSched is 1000 or 2000 of them wide."""
+    A, AA = [1, 0], [2, 0]
+    G11 = [[1, 1], 0]
+    U = {"rt": "MS", "disc": "MS"}
+    out = []
+    for pol in ("tsg", "tsc"):
+        # touching intervals: three 1 ms tasks fill the slots 0, 1000, 2000
+        out.append(case(pol, "tasks", 0, [A], [], [T("g1", 0, 3000, [(A, 1000)]), T("g2", 0, 3000, [(A, 1000)]), T("g3", 0, 3000, [(A, 1000)])], disc=1000, units=U, tag="units_touching"))
+        # deadline not on the grid: 2 ms task, deadline 3999 us -> slots 0 and 1000 only
+        out.append(case(pol, "tasks", 0, [A], [O(1, A, 1000)], [T("g1", 0, 3999, [(A, 2000)]), T("g2", 0, 2500, [(A, 1000)])], disc=1000, units=U, tag="units_off_grid"))
+        out.append(case(pol, "tasks", 0, [G11], [], [T("g1", 0, 3000, [(A, 2000)]), T("g2", 0, 3500, [(A, 2000)]), T("g3", 0, 4000, [(AA, 2000), (A, 4000)])], disc=1000, units=U, tag="units_multi"))
+        out.append(case(pol, "tasks", 2000, [AA], [], [T("g1", 1000, 8000, [(AA, 4000)]), T("g2", 0, 8000, [(A, 2000), (AA, 6000)])], disc=2000, plan_ahead=8000, units=U, tag="units_disc2"))
+    out.append(case("tsg", "graphs", 0, [G11], [], [T("g1", 0, 9000, [(A, 2000)]), T("g1", -1, 6000, [(A, 2000)], parents=[1]), T("g2", 0, 5000, [(A, 5000)])], disc=1000, units=U, tag="units_chain"))
+    # ILP: starts are whole microseconds; tight windows keep the plan space small
+    U = {"rt": "MS"}
+    out.append(case("ilp", "tasks", 0, [A], [], [T("g1", 0, 1003, [(A, 1000)]), T("g2", 0, 2004, [(A, 1000)])], units=U, tag="units_ilp_gap"))
+    out.append(case("ilp", "tasks", 0, [G11], [], [T("g1", 0, 1002, [(A, 1000)]), T("g2", 0, 1003, [(A, 1000)]), T("g3", 0, 1004, [(A, 1000)])], units=U, tag="units_ilp_multi"))
+    out.append(case("ilp", "graphs", 0, [A], [], [T("g1", 0, 1003, [(A, 1000)]), T("g1", -1, 2005, [(A, 1000)], parents=[1])], units=U, tag="units_ilp_chain"))
+    return out
+
+
 def _fits_some(dem, caps):
     return any(all(d <= c for d, c in zip(dem, cap)) for cap in caps)
 
 
-def generate(policy, mode, n, r, max_tasks):
-    """n seeded-random instances of one policy / mode inside the bound."""
+MULTI_CAP_SETS = [
+    # one worker that lists r1 under 2-3 ids (quantities 1-2), alone or next to a single-entry worker
+    [[[1, 1], 0]], [[[1, 1], 0]], [[[1, 1], 1]], [[[1, 2], 0]], [[[2, 1], 0]], [[[1, 1, 1], 0]], [[[1, 1], [1, 1]]], [[[2, 1], [1]]],
+    [[[1, 1], 0], [1, 0]], [[1, 0], [[1, 1], 0]], [[[1, 2], 1], [1, 1]], [[[1, 1], 0], [[1, 1], 1]], [[0, 1], [[1, 1, 1], 0]],
+]
+
+
+def generate(policy, mode, n, r, max_tasks, multi=False):
+    """n seeded-random instances of one policy / mode inside the bound.  multi: workers that
+    list one resource name under several ids, capacity-bound on that name (deadlines mostly
+    too tight to serialise), a part of the demands pinned to specific ids."""
     cap_sets = [[[1, 0]], [[2, 0]], [[1, 1]], [[2, 1]], [[1, 0], [1, 0]], [[2, 0], [1, 0]], [[1, 0], [0, 1]], [[1, 1], [1, 0]], [[2, 1], [1, 1]]]
     dems = [[1, 0], [1, 0], [2, 0], [0, 1], [1, 1]]
+    if multi:
+        cap_sets = MULTI_CAP_SETS
+        dems = [[1, 0], [1, 0], [2, 0], [2, 0], [0, 1], [1, 1], [3, 0]]
     out = []
     while len(out) < n:
         now = r.choice([0, 0, 2, 3])
-        caps = r.choice(cap_sets)
+        inst_caps = r.choice(cap_sets)
+        caps = _tots(inst_caps)  # units per worker and resource name
         # running occupants (no more than fit)
         occ = []
         free = [list(c) for c in caps]
@@ -172,14 +305,32 @@ def generate(policy, mode, n, r, max_tasks):
             free[w] = [f - x for f, x in zip(free[w], d)]
             rem = r.choice([1, 2, 3, 4])
             occ.append(O(w + 1, d, rem, rem + (r.choice([0, 0, 0, 1, 2]) if now > 0 else 0)))
-        ntasks = r.randint(1, max_tasks)
+        ntasks = r.randint(2 if multi else 1, max_tasks)
         if policy == "tsg" and ntasks + len(occ) > 5:
             # keep the TetriSched-Gurobi objective (<= 2 per task / occupant) below 10 so
             # that the 10 % relative gap cannot hide one task
             occ = occ[: 5 - ntasks]
         tasks, g = [], 0
 
+        def pin_some(sl):
+            """ask for a part of the demand with a specific id of some worker's instances"""
+            out_ = []
+            for d, rt in sl:
+                pin = [[] for _ in d]
+                if multi and r.random() < 0.25:
+                    ks = [k for k, q in enumerate(d) if q > 0 and any(isinstance(cap[k], list) for cap in inst_caps)]
+                    if ks:
+                        k = r.choice(ks)
+                        qs = r.choice([cap[k] for cap in inst_caps if isinstance(cap[k], list)])
+                        i = r.randrange(len(qs))
+                        pin[k] = [0] * i + [r.choice([1, min(d[k], qs[i])])]
+                out_.append((d, rt, pin))
+            return out_
+
         def strat_list():
+            return pin_some(strat_list0()) if multi else strat_list0()
+
+        def strat_list0():
             if r.random() < 0.35:
                 # a fast (wide) and a slow (narrow) strategy with clearly different runtimes
                 wide = [x for x in ([2, 0], [1, 1], [1, 0], [0, 1]) if _fits_some(x, caps)]
@@ -202,6 +353,8 @@ def generate(policy, mode, n, r, max_tasks):
 
         def deadline(rt, base, sl=()):
             kinds = ["hopeless", "tight", "tight", "tight", "mid", "mid", "mid", "loose", "loose"]
+            if multi:
+                kinds = ["hopeless", "tight", "tight", "tight", "tight", "tight", "tight", "mid", "mid", "loose"]
             if len({x[1] for x in sl}) > 1:  # rt is the fastest runtime: often only the faster strategy meets the deadline
                 kinds = ["hopeless", "tight", "tight", "tight", "tight", "tight", "mid", "mid", "loose"]
             kind = r.choice(kinds)
@@ -254,7 +407,8 @@ def generate(policy, mode, n, r, max_tasks):
         # a previously SCHEDULED task that must stay placed (no retraction)
         if r.random() < 0.12:
             cand = [i for i, t in enumerate(tasks) if sum(1 for u in tasks if u["graph"] == t["graph"]) == 1 and not t["occParents"]
-                    and not t["virtualChild"] and all(all(d <= c for d, c in zip(s["dem"], cap)) for s in t["strats"] for cap in caps)]
+                    and not t["virtualChild"] and all(all(d <= c for d, c in zip(s["dem"], cap)) for s in t["strats"] for cap in caps)
+                    and not any(any(x) for s in t["strats"] for x in s["pin"])]
             if cand:
                 i = r.choice(cand)
                 si = r.randrange(len(tasks[i]["strats"]))
@@ -268,7 +422,7 @@ def generate(policy, mode, n, r, max_tasks):
         if policy != "ilp":
             disc = r.choice([1, 1, 2, 3])
             pa = r.choice([-1, -1, r.randint(4, 10)])
-        out.append(case(policy, mode, now, caps, occ, tasks, disc, pa))
+        out.append(case(policy, mode, now, inst_caps, occ, tasks, disc, pa, tag="gen_multi" if multi else "gen"))
     return out
 
 
@@ -276,9 +430,42 @@ def generate(policy, mode, n, r, max_tasks):
 # real objects
 
 
-def _request(dem):
+def _request(dem, pin=None):
+    """the request vector: per resource name the unpinned part under the `any` id, the pinned
+    parts under their specific ids"""
     N = ns()
-    return N.Resources(resource_vector={N.Resource(name=RES[k], _id="any"): q for k, q in enumerate(dem) if q > 0})
+    vec = {}
+    for k, q in enumerate(dem):
+        pk = pin[k] if pin else []
+        if q - sum(pk) > 0:
+            vec[N.Resource(name=RES[k], _id="any")] = q - sum(pk)
+        for i, x in enumerate(pk):
+            if x > 0:
+                vec[N.Resource(name=RES[k], _id=str(i))] = x
+    return N.Resources(resource_vector=vec)
+
+
+def _et(v, unit=None):
+    """EventTime of v microseconds, expressed in the given unit"""
+    N = ns()
+    if unit in (None, "US"):
+        return us(v)
+    f = {"MS": 1000, "S": 10**6}[unit]
+    if v % f:
+        raise tlc.TLCMachineryError(f"{v}us is not a whole number of {unit}")
+    return N.EventTime(v // f, getattr(N.EventTime.Unit, unit))
+
+
+def _worker_vector(cap):
+    N = ns()
+    vec = {}
+    for k, c in enumerate(cap):
+        if isinstance(c, list):
+            for i, q in enumerate(c):
+                vec[N.Resource(name=RES[k], _id=str(i))] = q
+        elif c > 0:
+            vec[N.Resource(name=RES[k])] = c
+    return vec
 
 
 def build(inst):
@@ -287,14 +474,14 @@ def build(inst):
     SCHEDULED, sources RELEASED, other tasks VIRTUAL."""
     N = ns()
     now = inst["now"]
+    units = inst.get("units", {})
     workers = []
     for wi, cap in enumerate(inst["caps"]):
-        vec = {N.Resource(name=RES[k]): c for k, c in enumerate(cap) if c > 0}
-        workers.append(N.Worker(name=f"w{wi+1}", resources=N.Resources(resource_vector=vec)))
+        workers.append(N.Worker(name=f"w{wi+1}", resources=N.Resources(resource_vector=_worker_vector(cap))))
     pool = N.WorkerPool(name="pool", workers=workers)
     graphs, occ_tasks, tasks = {}, [], []
     for oi, o in enumerate(inst["occ"]):
-        st = N.ExecutionStrategy(resources=_request(o["dem"]), batch_size=1, runtime=us(o["full"]))
+        st = N.ExecutionStrategy(resources=_request(o["dem"], o.get("pin")), batch_size=1, runtime=us(o["full"]))
         prof = N.WorkProfile(name=f"o{oi+1}_p", execution_strategies=N.ExecutionStrategies([st]))
         started = now - (o["full"] - o["rem"])
         t = N.Task(
@@ -316,11 +503,11 @@ def build(inst):
         occ_tasks.append(t)
         graphs.setdefault(o["graph"], {})[t] = []
     for ti, t in enumerate(inst["tasks"]):
-        sts = [N.ExecutionStrategy(resources=_request(s["dem"]), batch_size=1, runtime=us(s["rt"])) for s in t["strats"]]
+        sts = [N.ExecutionStrategy(resources=_request(s["dem"], s.get("pin")), batch_size=1, runtime=_et(s["rt"], units.get("rt"))) for s in t["strats"]]
         prof = N.WorkProfile(name=f"t{ti+1}_p", execution_strategies=N.ExecutionStrategies(sts))
         task = N.Task(
             name=f"t{ti+1}", task_graph=t["graph"], job=N.Job(name=f"t{ti+1}", profile=prof), profile=prof,
-            deadline=us(t["deadline"]), timestamp=0, release_time=us(t["release"]),
+            deadline=_et(t["deadline"], units.get("deadline")), timestamp=0, release_time=us(t["release"]),
         )
         tasks.append(task)
         graphs.setdefault(t["graph"], {})[task] = []
@@ -364,7 +551,8 @@ def make_scheduler(c):
         return schedulers.ILPScheduler(
             preemptive=False, runtime=zero, lookahead=zero, enforce_deadlines=True, release_taskgraphs=graphs, goal="max_goodput"
         )
-    kw = dict(runtime=zero, enforce_deadlines=True, goal="max_goodput", time_discretization=us(c["disc"]), plan_ahead=us(c["plan_ahead"]))
+    kw = dict(runtime=zero, enforce_deadlines=True, goal="max_goodput", time_discretization=_et(c["disc"], c["inst"].get("units", {}).get("disc")),
+              plan_ahead=us(c["plan_ahead"]))
     if has_must:
         kw["retract_schedules"] = False
     if c["policy"] == "tsg":
@@ -461,8 +649,9 @@ def tlc_record(rec, rid, flags=(), kind=None):
     inst, pol = rec["inst"], rec["policy"]
     now = inst["now"]
     full = "occFull" in flags
+    nopin = [[] for _ in RES]
     occ = [
-        {"w": o["w"], "dem": o["dem"], "hold": o["full"] if full else o["rem"],
+        {"w": o["w"], "dem": o["dem"], "pin": o.get("pin") or nopin, "hold": o["full"] if full else o["rem"],
          # ILP: child >= now + (strategy runtime) + 1; TetriSched-Gurobi: now + remaining_time + 1
          "prec": o["full"] if (full and pol == "ilp") else o["rem"]}
         for o in inst["occ"]
@@ -474,15 +663,18 @@ def tlc_record(rec, rid, flags=(), kind=None):
         # plan_ahead defaults to the greatest deadline (an absolute time used as a duration)
         pa = rec["plan_ahead"] if rec["plan_ahead"] >= 0 else max(dls + [now + o["rem"] + 2 for o in inst["occ"]])
         conv = {"startLB": now, "grid": rec["disc"], "horizon": now + pa, "gap": 0, "precRt": "slowest"}
-    conv.update(precGap=1, pairSum="pairSum" in flags, unplacedTimed="unplacedTimed" in flags)
+    conv.update(precGap=1, pairSum="pairSum" in flags, unplacedTimed="unplacedTimed" in flags, nameCap="nameCap" in flags)
+    # per worker and resource name the quantities of its instances (position = id + 1; an entry
+    # listed without an id sits behind the ids: nothing can pin it); the spec sums them
+    caps = [[list(c) if isinstance(c, list) else ([0] * MAXIDS + [c] if c > 0 else []) for c in cap] for cap in inst["caps"]]
     gix = {}
     tasks = [
-        {"graph": gix.setdefault(t["graph"], len(gix) + 1), "release": t["release"], "deadline": t["deadline"], "strats": t["strats"],
-         "parents": t["parents"], "occParents": t["occParents"], "must": bool(t.get("must")), "sink": bool(t["sink"])}
+        {"graph": gix.setdefault(t["graph"], len(gix) + 1), "release": t["release"], "deadline": t["deadline"],
+         "strats": [{"dem": s_["dem"], "pin": s_.get("pin") or nopin, "rt": s_["rt"]} for s_ in t["strats"]], "parents": t["parents"], "occParents": t["occParents"], "must": bool(t.get("must")), "sink": bool(t["sink"])}
         for t in inst["tasks"]
     ]
     k = kind or ("opt" if pol == "ilp" else ("ext" if "rewardOnly" in flags else "max"))
-    return {"id": rid, "kind": k, "dump": False, "mode": rec["mode"], "now": now, "caps": inst["caps"], "occ": occ, "tasks": tasks, "conv": conv, "ans": rec.get("ans") or [{"placed": False, "w": 0, "s": 0, "start": 0} for _ in tasks]}
+    return {"id": rid, "kind": k, "dump": False, "mode": rec["mode"], "now": now, "caps": caps, "occ": occ, "tasks": tasks, "conv": conv, "ans": rec.get("ans") or [{"placed": False, "w": 0, "s": 0, "start": 0} for _ in tasks]}
 
 
 @contextlib.contextmanager
@@ -581,7 +773,8 @@ def _plan_text(rec, plan):
     for i, p in enumerate(plan):
         if p["placed"]:
             s = rec["inst"]["tasks"][i]["strats"][p["s"] - 1]
-            out.append(f"t{i+1}->w{p['w']} strategy {p['s']} (dem {s['dem']}, rt {s['rt']}) at {p['start']}")
+            pin = f", ids {s['pin']}" if any(any(x) for x in s.get("pin", [])) else ""
+            out.append(f"t{i+1}->w{p['w']} strategy {p['s']} (dem {s['dem']}{pin}, rt {s['rt']}) at {p['start']}")
         else:
             out.append(f"t{i+1} unplaced")
     return "; ".join(out)
@@ -759,7 +952,17 @@ EQ_CASES = [
     # TetriSched-Gurobi: chain (slowest runtime + 1), two workers, progressed occupant, slots now + 2k
     case("tsg", "graphs", 1, [[2, 0], [1, 1]], [O(1, [1, 0], 2, 3)],
          [T("g1", 0, 8, [([1, 0], 2), ([2, 0], 1)]), T("g1", -1, 9, [([0, 1], 2)], parents=[1]), T("g2", 1, 6, [([1, 0], 3)])], disc=2, tag="eq_tsg_chain"),
+    # a worker that lists r1 under two ids, a RUNNING occupant on one unit, one demand with a specific id: the models have
+    # one capacity row per (worker, resource name) with the SUM of the instances on the right-hand side
+    case("ilp", "tasks", 0, [[[1, 1], 0]], [O(1, [1, 0], 2)], [T("g1", 0, 5, [([1, 0], 2, [[0, 1], []])]), T("g2", 0, 5, [([2, 0], 1), ([1, 0], 3)])], tag="eq_ilp_multi"),
+    case("tsg", "tasks", 0, [[[1, 2], 0], [1, 0]], [O(1, [1, 0], 2)], [T("g1", 0, 6, [([3, 0], 2), ([1, 0], 4)]), T("g2", 0, 4, [([2, 0], 2, [[0, 2], []])])], disc=2, tag="eq_tsg_multi"),
 ]
+
+
+def _pinned_model_flags(policy):
+    """the conventions of the planners' own models (decision-space equality only): the named
+    over-tight ones + capacity rows per (worker, resource name), ids not distinguished"""
+    return tuple(f for f in FLAGS[policy] if f != "rewardOnly") + ("nameCap",)
 
 
 def _plan_key(plan):
@@ -830,7 +1033,7 @@ def eq_prepare(quick, sample=()):
     """Solve the fixed equality cases (and the sampled records) again, keeping the
     planners' Gurobi models; returns (records, TLC records of kind enum with dump: per
     case one under the pinned-model conventions and one under the statement-level ones)."""
-    cases = ([EQ_CASES[0], EQ_CASES[3]] if quick else EQ_CASES) + list(sample)
+    cases = ([EQ_CASES[0], EQ_CASES[3], EQ_CASES[4], EQ_CASES[5]] if quick else EQ_CASES) + list(sample)
     trecs, recs = [], []
     for c in cases:
         rec, m = solve_captured(c)
@@ -841,7 +1044,7 @@ def eq_prepare(quick, sample=()):
         rec["_model"] = m
         rec["_eqid"] = EQ_ID0 + 2 * len(recs)
         recs.append(rec)
-        flags = tuple(f for f in FLAGS[c["policy"]] if f != "rewardOnly")
+        flags = _pinned_model_flags(c["policy"])
         for k, fl in enumerate((flags, ())):
             tr = tlc_record(rec, rec["_eqid"] + k, fl, kind="enum")
             tr["dump"] = True
@@ -876,7 +1079,7 @@ def eq_compare(res, recs, finds):
             "equal_pinned": model == pinned, "equal_statement_level": model == stated,
         }
         if rec["tag"] == "eq_tsg_chain":
-            flags = tuple(f for f in FLAGS[rec["policy"]] if f != "rewardOnly")
+            flags = _pinned_model_flags(rec["policy"])
             pool, nsol = _pool_plans(rec, rec["_model"], rec["_sids"], tlc_record(rec, 0, flags)["conv"]["horizon"] + 12)
             entry["pool_solutions"] = nsol
             entry["plans_in_pool"] = len(pool)
@@ -924,21 +1127,33 @@ def run(tier: str) -> CheckResult:
         "closed intervals (gap 1), child >= parent + chosen runtime + 1; TetriSched slots now + k*discretisation <= now + plan_ahead, "
         "occupancy start <= t < start + runtime, child >= parent + slowest runtime + 1; deadlines hard",
         "instances keep the optimum / objective small enough that the 10 % relative MIP gap cannot hide one task or graph",
+        "a worker that lists one resource name under several ids owns the sum of the listed quantities; units asked for with the `any` id may come "
+        "from any of the instances (Resources.allocate splits them), units asked for with a specific id from that instance only",
     ]
     quick = tier == "quick"
     r = rng("c14")
-    cases = directed()
+    cases = directed() + directed_multi(quick) + directed_units()
     per = {"ilp/tasks": 5, "ilp/graphs": 5, "tsg/tasks": 7, "tsg/graphs": 6, "tsc/tasks": 5} if quick else \
         {"ilp/tasks": 520, "ilp/graphs": 520, "tsg/tasks": 340, "tsg/graphs": 340, "tsc/tasks": 240}
     for pm, n in per.items():
         pol, mode = pm.split("/")
         cases += generate(pol, mode, n, r, 3 if quick else 4)
-    jvms = 3 if quick else 12
+    # multi-instance workers (own random stream: the sample above stays what it was)
+    rm = rng("c14/multi")
+    per_multi = {"ilp/tasks": 4, "ilp/graphs": 3, "tsg/tasks": 4, "tsg/graphs": 3, "tsc/tasks": 3} if quick else \
+        {"ilp/tasks": 160, "ilp/graphs": 160, "tsg/tasks": 120, "tsg/graphs": 120, "tsc/tasks": 80}
+    for pm, n in per_multi.items():
+        pol, mode = pm.split("/")
+        cases += generate(pol, mode, n, rm, 3 if quick else 4, multi=True)
+    jvms = 6 if quick else 12
     # --- the real planners (CPLEX is the slow one: spread over processes)
     t0 = time.time()
-    procs = 8 if quick else 12
-    chunks = [cases[i::procs] for i in range(procs)]
-    recs = [x for part in parallel(_realize_chunk, [(ch,) for ch in chunks if ch], procs=procs) for x in part]
+    procs = 12
+    order = sorted(range(len(cases)), key=lambda i: (cases[i]["policy"] != "tsc", i))  # CPLEX cases spread evenly
+    chunks = [order[i::procs] for i in range(procs)]
+    parts = parallel(_realize_chunk, [([cases[i] for i in ch],) for ch in chunks if ch], procs=procs)
+    byix = {i: x for ch, part in zip([ch for ch in chunks if ch], parts) for i, x in zip(ch, part)}
+    recs = [byix[i] for i in range(len(cases))]
     res.extra["planner_wall_s"] = round(time.time() - t0, 1)
     skipped = [x for x in recs if "skip" in x]
     recs = [x for x in recs if "skip" not in x]
@@ -953,26 +1168,30 @@ def run(tier: str) -> CheckResult:
     # to attribute a failure to its cause, under the conventions of the pinned model
     t0 = time.time()
     erecs = enum_records()
-    pick = [rec for rec in recs if rec["policy"] in ("ilp", "tsg") and rec["tag"] == "gen" and 20 <= _ncandidates(rec) <= 4000]
+    pick = [rec for rec in recs if rec["policy"] in ("ilp", "tsg") and rec["tag"] in ("gen", "gen_multi") and 20 <= _ncandidates(rec) <= 4000]
     r.shuffle(pick)
     qrecs, qtrecs = eq_prepare(quick, pick[: (6 if quick else 150)])
     res.extra["equality_prepare_wall_s"] = round(time.time() - t0, 1)
-    variants = []
-    for rec in recs:
-        for k, fl in enumerate(_subsets(FLAGS[rec["policy"]])):
-            if "rewardOnly" in fl and rec["mode"] != "graphs":
-                continue
-            variants.append((rec, fl, rec["id"] * 100 + k + 1))
     t0 = time.time()
-    finds, stats, runs = check_records(
-        erecs + qtrecs + [tlc_record(rec, rec["id"] * 100) for rec in recs] + [tlc_record(rec, vid, fl) for rec, fl, vid in variants], jvms
-    )
-    _absorb(res, "PlanSpace/records (statement-level conventions + attribution variants)", runs, time.time() - t0)
+    finds, stats, runs = check_records(erecs + qtrecs + [tlc_record(rec, rec["id"] * 100) for rec in recs], jvms)
+    _absorb(res, "PlanSpace/records (statement-level conventions)", runs, time.time() - t0)
     absorb_enum(res, erecs, stats, runs)
     t0 = time.time()
     eq_compare(res, qrecs, finds)
     res.extra["equality_compare_wall_s"] = round(time.time() - t0, 1)
     failing = [rec for rec in recs if any(c in ("better", "addable") for c, _ in finds.get(rec["id"] * 100, []))]
+    # second pass, failing records only: judged again under the conventions of the pinned model
+    variants = []
+    for rec in failing:
+        for k, fl in enumerate(_subsets(FLAGS[rec["policy"]])):
+            if "rewardOnly" in fl and rec["mode"] != "graphs":
+                continue
+            variants.append((rec, fl, rec["id"] * 100 + k + 1))
+    if variants:
+        t0 = time.time()
+        finds2, _, runs2 = check_records([tlc_record(rec, vid, fl) for rec, fl, vid in variants], jvms)
+        finds.update(finds2)
+        _absorb(res, "PlanSpace/records (failing records under the attribution variants)", runs2, time.time() - t0)
     outside = [rec for rec in recs if any(c == "answer_outside_space" for c, _ in finds.get(rec["id"] * 100, []))
                and any(a["placed"] and (i + 1) not in rec["info"].get("kept_previous_placement", []) for i, a in enumerate(rec["ans"]))]
     explained = {}
@@ -996,6 +1215,28 @@ def run(tier: str) -> CheckResult:
         c["with_running_occupants"] += bool(rec["inst"]["occ"])
         c["with_scheduled_task"] += any(t.get("must") for t in rec["inst"]["tasks"])
     res.extra["per_policy_mode"] = counts
+    # instance classes (which answers load a worker beyond every single entry of a name is decided by the spec: NeedsSum)
+    classes = {}
+    for rec in recs:
+        inst = rec["inst"]
+        c = classes.setdefault(rec["policy"], {k: 0 for k in (
+            "multi_instance_worker", "multi_instance_next_to_single_entry_worker", "multi_instance_with_running_occupant",
+            "multi_instance_some_task_unplaced", "answer_needs_the_sum_over_instances", "specific_id_demands", "mixed_time_units")})
+        multi = _multi(inst)
+        c["multi_instance_worker"] += multi
+        c["multi_instance_next_to_single_entry_worker"] += multi and any(not any(isinstance(x, list) and len(x) > 1 for x in cap) for cap in inst["caps"])
+        c["multi_instance_with_running_occupant"] += multi and bool(inst["occ"])
+        c["multi_instance_some_task_unplaced"] += multi and any(not a["placed"] for a in rec["ans"])
+        c["answer_needs_the_sum_over_instances"] += any(cl == "needs_sum" for cl, _ in finds.get(rec["id"] * 100, []))
+        c["specific_id_demands"] += _pinned(inst)
+        c["mixed_time_units"] += bool(inst.get("units"))
+    res.extra["instance_classes"] = classes
+    res.extra["instance_families"] = {
+        "directed_multi_instance": sum(1 for rec in recs if rec["tag"].startswith("multi_")),
+        "directed_mixed_units": sum(1 for rec in recs if rec["tag"].startswith("units_")),
+        "directed_other": sum(1 for rec in recs if not rec["tag"].startswith(("multi_", "units_", "gen"))),
+        "random": sum(1 for rec in recs if rec["tag"] == "gen"), "random_multi_instance": sum(1 for rec in recs if rec["tag"] == "gen_multi"),
+    }
     res.extra["answer_outside_modelled_space"] = [{"policy": x["policy"], "mode": x["mode"], "inst": x["inst"], "ans": x["ans"]} for x in outside[:5]]
     res.extra["answers_outside_modelled_space"] = len(outside)
     causes = {}
@@ -1038,9 +1279,14 @@ def run(tier: str) -> CheckResult:
             res.samples.append({"verdict": "violation", "clause": CLAUSE[pol], "what": what, "inst": rec["inst"], "answer": detail["answer_text"]})
     res.extra["violation_causes"] = causes
     for rec in recs:
+        if rec not in failing and any(cl == "needs_sum" for cl, _ in finds.get(rec["id"] * 100, [])) and rec["inst"]["occ"]:
+            res.samples.append({"verdict": "ok: the answer needs the sum over the instances of a resource name", "policy": rec["policy"], "mode": rec["mode"],
+                                "inst": rec["inst"], "answer": _plan_text(rec, rec["ans"])})
+            break
+    for rec in recs:
         if len(res.samples) >= 7:
             break
-        if rec not in failing and any(not a["placed"] for a in rec["ans"]) and rec["tag"] == "gen":
+        if rec not in failing and any(not a["placed"] for a in rec["ans"]) and rec["tag"] in ("gen", "gen_multi"):
             res.samples.append({"verdict": "ok: optimal / maximal with unplaced tasks", "policy": rec["policy"], "mode": rec["mode"],
                                 "inst": rec["inst"], "answer": _plan_text(rec, rec["ans"]), "complete_plans_examined": stats.get(rec["id"] * 100, 0)})
     return res
